@@ -86,6 +86,10 @@ def _seq_circuit(rng, nff, wide):
         gates.append(f"g{k}")
     for k in range(nff):
         edges.append([rng.choice(avail), f"ff{k}.d"])
+    if wide and gates and rng.random() < 0.4:
+        # the reset NET (named exactly like the pin it feeds) is also used by ordinary logic
+        nodes.append(["grst", "or", True])
+        edges += [["rst", "grst"], [gates[0], "grst"]]
     if not any(r[2] for r in nodes):
         nodes[-1][2] = True
     if rng.random() < 0.3:
